@@ -209,6 +209,11 @@ def scalar_alphabet(cname, reduced=False):
     if 8 * nb != bits:
         S += [("2^(8*bytes)-1", (1 << (8 * nb)) - 1), ("2^(8*bytes)", 1 << (8 * nb))]
     S += [("2^(bits+9)+5", (1 << (bits + 9)) + 5)]
+    # all-ones scalars that fill whole 64-bit words, up to four words more than the field: adding a multiple of the
+    # order to such a scalar (scalar blinding) carries out of its top word
+    words = (bits + 63) // 64
+    for w in (range(words + 1, words + 4) if reduced else range(1, words + 5)):
+        S.append(("2^(64*%d)-1" % w, (1 << (64 * w)) - 1))
     S += [("0x0f0f..", int.from_bytes(b"\x0f" * nb, "big") % n), ("0xf0f0..", int.from_bytes(b"\xf0" * nb, "big") >> (8 * nb - bits + 1)),
           ("seeded", 1 + seeded_int("c06/scalar/" + cname, bits + 64) % (n - 1))]
     if not reduced:
